@@ -44,7 +44,7 @@ pub fn property() -> Property {
             "nu-SVC is generated only with nu n / 2 <= min(n+, n-) - 1/2 (otherwise the nu-SVC dual has no feasible point); both classes are always present".into(),
             "nu-SVR: only feasibility, decision-function consistency and 'all free vectors share one |residual|' are asserted".into(),
             "one-class with nu = 1 (all coefficients at the bound, rho = +inf, as in LIBSVM) is accepted".into(),
-            "polynomial kernels (<x,y> + c)^d: degrees 1, 2, 3 with c in {0, 0.5, 1, 2}, and the fractional degrees 0.5, 1.5, 2.5, 3.3, for which c is constructed per case as ceil_16(-min <x_i,y> + 0.5) + {0, 0.5, 1, 2} over all training x training and training x fresh pairs, so every base the fit and the predictions evaluate is >= 0.5 and powf is defined (negative constants / bases are not generated). Reference = f64 powf on the f64 inner product; against linfa's own evaluation this differs by <= d * eps_mach * (c + |<x,y>|) / base relative (f64 ~1e-14, f32 <= 3.3 * 6e-8 * 2c / 0.5 < 4e-5 for c <= 40), inside the stated decision tolerances (1e-10 / 2e-4); a fractional-degree kernel need not be positive semi-definite: the KKT conditions and the eps argument do not use definiteness, and a nu-SVC run whose margin came out negative (all coefficients sign-flipped) is counted, not judged; Gaussian width in {0.05,0.5,5,50}; dense kernels only".into(),
+            "polynomial kernels (<x,y> + c)^d: degrees 1, 2, 3 with c in {0, 0.5, 1, 2}, and the fractional degrees 0.5, 1.5, 2.5, 3.3, for which the features are halved, the solver eps is 1e-3 and c is constructed per case as ceil_16(max |<x_i,y>| + 0.5) + {0, 0.5, 1, 2} over all training x training and training x fresh pairs, so every base the fit and the predictions evaluate lies in [0.5, 2c] and powf is defined (negative constants / bases are not generated). Reference = f64 powf on the f64 inner product; against linfa's own evaluation this differs by <= d * eps_mach * (c + |<x,y>|) / base relative (f64 ~1e-14, f32 <= 3.3 * 6e-8 * 2c / 0.5 < 4e-5 for c <= 40), inside the stated decision tolerances (1e-10 / 2e-4); a fractional-degree kernel need not be positive semi-definite: the KKT conditions and the eps argument do not use definiteness, and a nu-SVC run whose margin came out negative (all coefficients sign-flipped) is counted, not judged; Gaussian width in {0.05,0.5,5,50}; dense kernels only".into(),
             "KKT conditions are judged only when Display says the solver exited on the threshold; runs at the iteration cap are counted as not judged".into(),
             "nsupport = number of coefficients with |a_i| > 100 eps_mach (the definition in the code); the corner of a coefficient within a factor r of that threshold is not targeted".into(),
             "Platt calibration errors (line search / iteration limit of the calibration) are counted, not judged; probabilities must be monotone within 1e-6 in the model's own decision value".into(),
